@@ -9,7 +9,7 @@ from ..core import b, u
 PROP = "C17"
 LEVEL = "exploration"
 RULE = ("seeded trees (hidden files, nested directories, symlinks to files and to directories, names shared between files and "
-        "directories at different depths) x .gitignore files generated from the grammar {literal names, *, ?, **/ prefix, trailing / "
+        "directories at different depths, entries named like the source itself or beginning with its name) x .gitignore files generated from the grammar {literal names, *, ?, **/ prefix, trailing / "
         "(directory-only), leading / (anchored), ! negation, comments, blank lines} with patterns drawn from names that are present; "
         "both drivers; with and without --gitignore. Oracle: git itself -- `git check-ignore --no-index --stdin -z` with a detached "
         "empty git-dir, HOME pointing to an empty directory and system/global config disabled, so only <source>/.gitignore speaks; the "
@@ -19,7 +19,7 @@ RULE = ("seeded trees (hidden files, nested directories, symlinks to files and t
 ASSUMPTIONS = ["git 2.39's check-ignore is the reference for 'git's pattern semantics'",
                "only patterns from the grammar in the property's quantifier are generated (no character classes, escapes, trailing spaces)"]
 
-NAMES = ["bad\xff", "caf\xe9", "Build", "A", "a", "b", "build", "target", "foo", "foo.txt", "bar.o", "lib.o", "main.c", "notes", "tmp", ".hidden", ".cache", "x1", "x2", "doc", "out", "été".encode("utf-8").decode("latin-1")]
+NAMES = ["bad\xff", "caf\xe9", "Build", "A", "a", "b", "build", "target", "foo", "foo.txt", "bar.o", "lib.o", "main.c", "notes", "tmp", ".hidden", ".cache", "x1", "x2", "doc", "out", "src", "srcx", "src2", "été".encode("utf-8").decode("latin-1")]
 
 
 def gen_tree(r, top="src"):
